@@ -1,7 +1,8 @@
 /-
 Helper lemmas for C10 on the extension model, part 2: `InlineX.runX` (the tree walk of `InlineProcessor.run` over a
 pattern table) — port of `Lemmas/PlaceholdersBRun.lean`: given the contract `HISpecXB` of `handleInlineTopX`, every
-placeholder is replaced and every element of the result satisfies `WNodeB 0`.  The placeholder machinery (`ppTop`) and
+placeholder is replaced and every element of the result satisfies `WNodeB 0`; the exclusion of blank wikilink labels
+(`QN wl`, `QSt wl`, `Lemmas/PlaceholdersXQ.lean`) is carried along.  The placeholder machinery (`ppTop`) and
 the path/coverage machinery are shared with `Model/Inline.lean`, so `ppTopB_spec`, `all_cleanB`, `setAt_frame`, … apply
 unchanged.  Core Lean only.
 -/
@@ -13,8 +14,9 @@ open MdVerif.NoCtl Py Inline InlineX
 /-! ### `visitChildX` -/
 
 /-- the text step of `visitChildX` -/
-theorem visit_textXB {xc : XCfg} (hhi : HISpecXB xc) {child : Node} {x : XSt}
-    (hc : WNodeB x.st.stash.length child) (hst : StOKB x.st.stash) {c1 : Node} {lst : List Node} {x1 : XSt}
+theorem visit_textXB {wl : Bool} {xc : XCfg} (hhi : HISpecXB wl xc) {child : Node} {x : XSt}
+    (hc : WNodeB x.st.stash.length child) (hst : StOKB x.st.stash) (hcq : QN wl child) (hqs : QSt wl x.st.stash)
+    {c1 : Node} {lst : List Node} {x1 : XSt}
     (h : (if Node.truthy child.text && !child.textAtomic then
             match handleInlineTopX xc (child.text.getD []) x with
             | none => none
@@ -25,7 +27,8 @@ theorem visit_textXB {xc : XCfg} (hhi : HISpecXB xc) {child : Node} {x : XSt}
           else some (child, [], x)) = some (c1, lst, x1)) :
     x.st.stash.length ≤ x1.st.stash.length ∧ StOKB x1.st.stash ∧ x1.st.html = x.st.html ∧
     WNodeB x1.st.stash.length c1 ∧ WFO true 0 c1.text ∧ c1.children = child.children ∧ c1.tail = child.tail ∧
-    c1.tailAtomic = child.tailAtomic ∧ ∀ n ∈ lst, OutB x1.st.stash.length n := by
+    c1.tailAtomic = child.tailAtomic ∧ (∀ n ∈ lst, OutB x1.st.stash.length n) ∧
+    QN wl c1 ∧ QSt wl x1.st.stash ∧ ∀ n ∈ lst, n.Forall (QN wl) := by
   split at h
   · rename_i hcond
     simp only [Bool.and_eq_true, Bool.not_eq_true'] at hcond
@@ -43,13 +46,16 @@ theorem visit_textXB {xc : XCfg} (hhi : HISpecXB xc) {child : Node} {x : XSt}
         obtain ⟨t1, t2, t3, t4, t5, t6⟩ := hc
         rw [hcond.2] at t5
         simp only [Bool.false_eq_true, if_false] at t5
-        obtain ⟨w1, w3, w4, w5⟩ := hhi _ _ _ _ t5 hst hh
+        obtain ⟨w1, w3, w4, w5, w6, w7⟩ := hhi _ _ _ _ t5 hst (hcq.1 hcond.2) hqs hh
         have inv := ppTopB_spec w3 (isText := true) (parent := { child with text := none, textAtomic := false })
           w1 rfl rfl hp
+        obtain ⟨iq1, iq2⟩ := ppTopQ_spec w3 w7 (isText := true)
+          (parent := { child with text := none, textAtomic := false }) w1 w6 rfl hp
         have hs : StrB 0 c1'.text := inv.slotOK
         have hfl : c1'.textAtomic = false := inv.flag
         have hcode : isCode c1' = isCode child := by simp only [isCode, ← inv.frame.1]
-        refine ⟨w4, w3, w5, ?_, hs.1, inv.frame.2.2.symm, inv.other.1, inv.other.2, inv.res⟩
+        refine ⟨w4, w3, w5, ?_, hs.1, inv.frame.2.2.symm, inv.other.1, inv.other.2, inv.res,
+          ⟨fun _ => iq1, by rw [inv.other.1]; exact hcq.2⟩, w7, iq2⟩
         refine ⟨by rw [← inv.frame.1]; exact t1, by rw [← inv.frame.2.1]; exact t2,
           by rw [inv.other.2]; exact t3, by rw [inv.other.1]; exact t4.mono w4, ?_, ?_⟩
         · rw [hfl]; simp only [Bool.false_eq_true, if_false]
@@ -61,7 +67,7 @@ theorem visit_textXB {xc : XCfg} (hhi : HISpecXB xc) {child : Node} {x : XSt}
   · rename_i hcond
     simp only [Option.some.injEq, Prod.mk.injEq] at h
     obtain ⟨rfl, rfl, rfl⟩ := h
-    refine ⟨Nat.le_refl _, hst, rfl, hc, ?_, rfl, rfl, rfl, by simp⟩
+    refine ⟨Nat.le_refl _, hst, rfl, hc, ?_, rfl, rfl, rfl, by simp, hcq, hqs, by simp⟩
     by_cases hat : child.textAtomic = true
     · have := hc.2.2.2.2.1
       rw [if_pos hat] at this
@@ -80,8 +86,9 @@ theorem visit_textXB {xc : XCfg} (hhi : HISpecXB xc) {child : Node} {x : XSt}
         | cons a b => rw [htx] at this; simp [Node.truthy] at this
 
 /-- the tail step of `visitChildX` -/
-theorem visit_tailXB {xc : XCfg} (hhi : HISpecXB xc) {c1 : Node} {x1 : XSt}
-    (hc : WNodeB x1.st.stash.length c1) (hst : StOKB x1.st.stash) {c2 : Node} {tr : List Node} {x2 : XSt}
+theorem visit_tailXB {wl : Bool} {xc : XCfg} (hhi : HISpecXB wl xc) {c1 : Node} {x1 : XSt}
+    (hc : WNodeB x1.st.stash.length c1) (hst : StOKB x1.st.stash) (hcq : QN wl c1) (hqs : QSt wl x1.st.stash)
+    {c2 : Node} {tr : List Node} {x2 : XSt}
     (h : (if Node.truthy c1.tail then
             match (if c1.tailAtomic then some (c1.tail.getD [], x1) else handleInlineTopX xc (c1.tail.getD []) x1) with
             | none => none
@@ -94,7 +101,8 @@ theorem visit_tailXB {xc : XCfg} (hhi : HISpecXB xc) {c1 : Node} {x1 : XSt}
           else some (c1, [], x1)) = some (c2, tr, x2)) :
     x1.st.stash.length ≤ x2.st.stash.length ∧ StOKB x2.st.stash ∧ x2.st.html = x1.st.html ∧
     WNodeB x2.st.stash.length c2 ∧ WFO true 0 c2.tail ∧ c2.text = c1.text ∧ c2.children = c1.children ∧
-    ∀ n ∈ tr, OutB x2.st.stash.length n := by
+    (∀ n ∈ tr, OutB x2.st.stash.length n) ∧
+    QN wl c2 ∧ QSt wl x2.st.stash ∧ ∀ n ∈ tr, n.Forall (QN wl) := by
   have hta : c1.tailAtomic = false := hc.2.2.1
   rw [hta] at h
   simp only [Bool.false_eq_true, if_false] at h
@@ -104,7 +112,7 @@ theorem visit_tailXB {xc : XCfg} (hhi : HISpecXB xc) {c1 : Node} {x1 : XSt}
     | some r =>
       obtain ⟨data, x2'⟩ := r
       simp only [hx] at h
-      obtain ⟨w1, w3, w4, w5⟩ := hhi _ _ _ _ hc.2.2.2.1 hst hx
+      obtain ⟨w1, w3, w4, w5, w6, w7⟩ := hhi _ _ _ _ hc.2.2.2.1 hst hcq.2 hqs hx
       cases hp : ppTop x2'.st data false (mkEl "d") false with
       | none => simp [hp] at h
       | some r2 =>
@@ -112,10 +120,15 @@ theorem visit_tailXB {xc : XCfg} (hhi : HISpecXB xc) {c1 : Node} {x1 : XSt}
         simp only [hp, Option.some.injEq, Prod.mk.injEq] at h
         obtain ⟨rfl, rfl, rfl⟩ := h
         have inv := ppTopB_spec w3 (isText := false) (parent := mkEl "d") w1 rfl rfl hp
+        obtain ⟨iq1, iq2⟩ := ppTopQ_spec w3 w7 (isText := false) (parent := mkEl "d") w1 w6 rfl hp
         have hs : StrB 0 dumby.tail := inv.slotOK
         have hfl : dumby.tailAtomic = false := inv.flag
         have hcm := hc.mono w4
-        refine ⟨w4, w3, w5, ?_, ?_, ?_, ?_, inv.res⟩
+        refine ⟨w4, w3, w5, ?_, ?_, ?_, ?_, inv.res, ?_, w7, iq2⟩
+        rotate_left 4
+        · split
+          · exact ⟨hcq.1, iq1⟩
+          · exact ⟨hcq.1, qw_nil wl⟩
         · split
           · rw [hfl]; exact hcm.set_tail (hs.mono (Nat.zero_le _)).toT
           · exact hcm.set_tail (strT_none _)
@@ -127,7 +140,7 @@ theorem visit_tailXB {xc : XCfg} (hhi : HISpecXB xc) {c1 : Node} {x1 : XSt}
   · rename_i hcond
     simp only [Option.some.injEq, Prod.mk.injEq] at h
     obtain ⟨rfl, rfl, rfl⟩ := h
-    refine ⟨Nat.le_refl _, hst, rfl, hc, ?_, rfl, rfl, by simp⟩
+    refine ⟨Nat.le_refl _, hst, rfl, hc, ?_, rfl, rfl, by simp, hcq, hqs, by simp⟩
     unfold WFO
     cases htx : c1.tail with
     | none => exact .nil
@@ -136,29 +149,40 @@ theorem visit_tailXB {xc : XCfg} (hhi : HISpecXB xc) {c1 : Node} {x1 : XSt}
       | nil => exact .nil
       | cons a b => rw [htx] at hcond; simp [Node.truthy] at hcond
 
-theorem visitChildX_specB {xc : XCfg} (hhi : HISpecXB xc) {child : Node} {v : VisitX} {c3 : Node}
+theorem visitChildX_specB {wl : Bool} {xc : XCfg} (hhi : HISpecXB wl xc) {child : Node} {v : VisitX} {c3 : Node}
     {tr : List Node} {v' : VisitX} (hc : child.Forall (WNodeB v.x.st.stash.length)) (hst : StOKB v.x.st.stash)
+    (hcq : child.Forall (QN wl)) (hqs : QSt wl v.x.st.stash)
     (h : visitChildX xc child v = some (c3, tr, v')) :
     v.x.st.stash.length ≤ v'.x.st.stash.length ∧ StOKB v'.x.st.stash ∧ v'.x.st.html = v.x.st.html ∧ v'.done = v.done ∧
     v'.posmap = v.posmap ∧ c3.Forall (WNodeB v'.x.st.stash.length) ∧ Clean true c3 ∧
     (∀ n ∈ tr, OutB v'.x.st.stash.length n) ∧ (∀ q ∈ v.pushes, q ∈ v'.pushes) ∧
-    (∀ r, Unclean true c3 r → ∃ q ∈ v'.pushes, q <+: v.done.length :: r) := by
-  rw [Node.forall_iff] at hc
+    (∀ r, Unclean true c3 r → ∃ q ∈ v'.pushes, q <+: v.done.length :: r) ∧
+    c3.Forall (QN wl) ∧ (∀ n ∈ tr, n.Forall (QN wl)) ∧ QSt wl v'.x.st.stash := by
+  rw [Node.forall_iff] at hc hcq
   unfold visitChildX at h
   simp only at h
   split at h
   · simp at h
   · rename_i c1 lst x1 h1
-    obtain ⟨a1, a2, a3, a4, a5, a6, a7, a8, a9⟩ := visit_textXB hhi hc.1 hst h1
+    obtain ⟨a1, a2, a3, a4, a5, a6, a7, a8, a9, aq1, aq2, aq3⟩ := visit_textXB hhi hc.1 hst hcq.1 hqs h1
     split at h
     · simp at h
     · rename_i c2 tr' x2 h2
-      obtain ⟨b1, b2, b3, b4, b5, b6, b7, b8⟩ := visit_tailXB hhi a4 a2 h2
+      obtain ⟨b1, b2, b3, b4, b5, b6, b7, b8, bq1, bq2, bq3⟩ := visit_tailXB hhi a4 a2 aq1 aq2 h2
       simp only [Option.some.injEq, Prod.mk.injEq] at h
       obtain ⟨rfl, rfl, rfl⟩ := h
       have hkids : c2.children = child.children := b7.trans a6
       refine ⟨Nat.le_trans a1 b1, b2, b3.trans a3, rfl, rfl, ?_, ⟨by show WFO true 0 c2.text; rw [b6]; exact a5, b5⟩,
-        b8, ?_, ?_⟩
+        b8, ?_, ?_, ?_, bq3, bq2⟩
+      rotate_left 3
+      · rw [Node.forall_iff]
+        refine ⟨bq1, ?_⟩
+        intro g hg
+        simp only [List.mem_append] at hg
+        rcases hg with hg | hg
+        · exact aq3 g hg
+        · rw [hkids] at hg
+          exact hcq.2 g hg
       · rw [Node.forall_iff]
         refine ⟨b4, ?_⟩
         intro g hg
@@ -213,21 +237,24 @@ theorem visitChildX_specB {xc : XCfg} (hhi : HISpecXB xc) {child : Node} {v : Vi
 
 /-! ### `visitLoopX`, `runLoopX`, `runX` -/
 
-structure VInvXB (v : VisitX) : Prop where
+structure VInvXB (wl : Bool) (v : VisitX) : Prop where
   stOK : StOKB v.x.st.stash
+  qs : QSt wl v.x.st.stash
+  doneQ : ∀ c ∈ v.done, c.Forall (QN wl)
   done : ∀ c ∈ v.done, c.Forall (WNodeB v.x.st.stash.length) ∧ Clean true c
   cov : ∀ (idx : Nat) (c : Node) (r : Path), v.done.reverse[idx]? = some c → Unclean true c r →
     ∃ q ∈ v.pushes, q <+: idx :: r
 
-theorem visitLoopX_specB {xc : XCfg} (hhi : HISpecXB xc) :
-    ∀ (g : Nat) (todo : List (Node × Option Nat)) (v v' : VisitX), VInvXB v →
-      (∀ y ∈ todo, y.1.Forall (WNodeB v.x.st.stash.length)) → visitLoopX xc g todo v = some v' →
-      VInvXB v' ∧ v.x.st.stash.length ≤ v'.x.st.stash.length ∧ v'.x.st.html = v.x.st.html := by
+theorem visitLoopX_specB {wl : Bool} {xc : XCfg} (hhi : HISpecXB wl xc) :
+    ∀ (g : Nat) (todo : List (Node × Option Nat)) (v v' : VisitX), VInvXB wl v →
+      (∀ y ∈ todo, y.1.Forall (WNodeB v.x.st.stash.length)) → (∀ y ∈ todo, y.1.Forall (QN wl)) →
+      visitLoopX xc g todo v = some v' →
+      VInvXB wl v' ∧ v.x.st.stash.length ≤ v'.x.st.stash.length ∧ v'.x.st.html = v.x.st.html := by
   intro g
   induction g with
-  | zero => intro todo v v' _ _ h; simp [visitLoopX] at h
+  | zero => intro todo v v' _ _ _ h; simp [visitLoopX] at h
   | succ g ih =>
-    intro todo v v' inv htodo h
+    intro todo v v' inv htodo htodoq h
     cases todo with
     | nil =>
       simp only [visitLoopX, Option.some.injEq] at h
@@ -241,11 +268,17 @@ theorem visitLoopX_specB {xc : XCfg} (hhi : HISpecXB xc) :
       | some r =>
         obtain ⟨c, tr, v1⟩ := r
         simp only [hv] at h
-        obtain ⟨a1, a2, a3, a4, a5, a6, a7, a8, a9, a10⟩ :=
-          visitChildX_specB hhi (htodo (child, orig) (by simp)) inv.stOK hv
-        have inv2 : ∀ pm, VInvXB { v1 with done := c :: v1.done, posmap := pm } := by
+        obtain ⟨a1, a2, a3, a4, a5, a6, a7, a8, a9, a10, aq1, aq2, aq3⟩ :=
+          visitChildX_specB hhi (htodo (child, orig) (by simp)) inv.stOK (htodoq (child, orig) (by simp)) inv.qs hv
+        have inv2 : ∀ pm, VInvXB wl { v1 with done := c :: v1.done, posmap := pm } := by
           intro pm
-          refine ⟨a2, ?_, ?_⟩
+          refine ⟨a2, aq3, ?_, ?_, ?_⟩
+          · intro d hd
+            simp only [List.mem_cons] at hd
+            rcases hd with rfl | hd
+            · exact aq1
+            · rw [a4] at hd
+              exact inv.doneQ d hd
           · intro d hd
             simp only [List.mem_cons] at hd
             rcases hd with rfl | hd
@@ -277,18 +310,26 @@ theorem visitLoopX_specB {xc : XCfg} (hhi : HISpecXB xc) :
           · obtain ⟨n, hn, rfl⟩ := List.mem_map.1 hy
             exact (a8 n hn).1
           · exact forall_WNode_monoB a1 (htodo y (by simp [hy]))
-        obtain ⟨r1, r2, r3⟩ := ih _ _ v' (inv2 _) htodo2 h
+        have htodo2q : ∀ y ∈ tr.map (fun n => (n, (none : Option Nat))) ++ todo, y.1.Forall (QN wl) := by
+          intro y hy
+          rcases List.mem_append.1 hy with hy | hy
+          · obtain ⟨n, hn, rfl⟩ := List.mem_map.1 hy
+            exact aq2 n hn
+          · exact htodoq y (by simp [hy])
+        obtain ⟨r1, r2, r3⟩ := ih _ _ v' (inv2 _) htodo2 htodo2q h
         exact ⟨r1, Nat.le_trans a1 r2, r3.trans a3⟩
 
 /-- state of the `while stack` loop -/
-structure RInvXB (root : Node) (stack : List Path) (x : XSt) : Prop where
+structure RInvXB (wl : Bool) (root : Node) (stack : List Path) (x : XSt) : Prop where
   stOK : StOKB x.st.stash
+  qs : QSt wl x.st.stash
+  treeQ : root.Forall (QN wl)
   tree : root.Forall (WNodeB x.st.stash.length)
   rootClean : Clean true root
   cov : Covered true root stack
 
-theorem runLoopX_specB {xc : XCfg} (hhi : HISpecXB xc) (g2 : Nat) :
-    ∀ (g : Nat) (root : Node) (stack : List Path) (x : XSt) (root' : Node) (x' : XSt), RInvXB root stack x →
+theorem runLoopX_specB {wl : Bool} {xc : XCfg} (hhi : HISpecXB wl xc) (g2 : Nat) :
+    ∀ (g : Nat) (root : Node) (stack : List Path) (x : XSt) (root' : Node) (x' : XSt), RInvXB wl root stack x →
       runLoopX xc g2 g root stack x = some (root', x') →
       root'.Forall (WNodeB 0) ∧ x'.st.html = x.st.html := by
   intro g
@@ -309,7 +350,7 @@ theorem runLoopX_specB {xc : XCfg} (hhi : HISpecXB xc) (g2 : Nat) :
       cases hg : getAt root p with
       | none =>
         simp only [hg] at h
-        refine ih _ _ _ _ _ ⟨inv.stOK, inv.tree, inv.rootClean, ?_⟩ h
+        refine ih _ _ _ _ _ ⟨inv.stOK, inv.qs, inv.treeQ, inv.tree, inv.rootClean, ?_⟩ h
         intro m hu
         obtain ⟨q, hq, hpre⟩ := inv.cov m hu
         rcases List.mem_cons.1 hq with rfl | hq
@@ -324,19 +365,24 @@ theorem runLoopX_specB {xc : XCfg} (hhi : HISpecXB xc) (g2 : Nat) :
         | some v =>
           simp only [hv] at h
           have hcur := forall_getAt inv.tree hg
-          rw [Node.forall_iff] at hcur
-          have vinv0 : VInvXB ({ x := x } : VisitX) := ⟨inv.stOK, by simp, by simp⟩
+          have hcurq := forall_getAt inv.treeQ hg
+          rw [Node.forall_iff] at hcur hcurq
+          have vinv0 : VInvXB wl ({ x := x } : VisitX) := ⟨inv.stOK, inv.qs, by simp, by simp, by simp⟩
           obtain ⟨vinv, hle, hhtml⟩ := visitLoopX_specB hhi g2 _ _ v vinv0
-            (fun y hy => hcur.2 _ (mem_withIdx hy)) hv
+            (fun y hy => hcur.2 _ (mem_withIdx hy)) (fun y hy => hcurq.2 _ (mem_withIdx hy)) hv
           simp only at hle hhtml
           -- the new subtree
           have hnew : ({ cur with children := v.done.reverse } : Node).Forall (WNodeB v.x.st.stash.length) := by
             rw [Node.forall_iff]
             exact ⟨hcur.1.mono hle, fun c hc => (vinv.done c (List.mem_reverse.1 hc)).1⟩
           have hframe := setAt_frame (root := root) (new := { cur with children := v.done.reverse }) hg rfl rfl rfl rfl rfl rfl
-          have inv' : RInvXB (setAt root p { cur with children := v.done.reverse })
+          have hnewq : ({ cur with children := v.done.reverse } : Node).Forall (QN wl) := by
+            rw [Node.forall_iff]
+            exact ⟨hcurq.1, fun c hc => vinv.doneQ c (List.mem_reverse.1 hc)⟩
+          have inv' : RInvXB wl (setAt root p { cur with children := v.done.reverse })
               (v.pushes.map (p ++ ·) ++ stack.map (remap p v.posmap)) v.x := by
-            refine ⟨vinv.stOK, forall_setAt WNodeB.children_irrel (forall_WNode_monoB hle inv.tree) hnew hg, ?_, ?_⟩
+            refine ⟨vinv.stOK, vinv.qs, forall_setAt (fun _ _ hn => hn) inv.treeQ hnewq hg,
+              forall_setAt WNodeB.children_irrel (forall_WNode_monoB hle inv.tree) hnew hg, ?_, ?_⟩
             · unfold Clean; rw [hframe.1, hframe.2.2.1]; exact inv.rootClean
             · intro m hu
               by_cases hpm : p <+: m
@@ -369,8 +415,8 @@ theorem runLoopX_specB {xc : XCfg} (hhi : HISpecXB xc) (g2 : Nat) :
 
 /-- `runX` on a tree of `WNodeB 0` elements: every element of the result is `WNodeB 0` (no placeholder left), and
     the HTML stash is the initial one -/
-theorem runX_specB {xc : XCfg} (hhi : HISpecXB xc) {tree t : Node} {html : List Str} {xs : XSt}
-    (ht : tree.Forall (WNodeB 0)) (h : runX xc tree html = some (t, xs)) :
+theorem runX_specB {wl : Bool} {xc : XCfg} (hhi : HISpecXB wl xc) {tree t : Node} {html : List Str} {xs : XSt}
+    (ht : tree.Forall (WNodeB 0)) (htq : tree.Forall (QN wl)) (h : runX xc tree html = some (t, xs)) :
     t.Forall (WNodeB 0) ∧ xs.st.html = html := by
   unfold runX at h
   have hcl : Clean true tree := by
@@ -380,8 +426,8 @@ theorem runX_specB {xc : XCfg} (hhi : HISpecXB xc) {tree t : Node} {html : List 
     by_cases hc : tree.textAtomic = true
     · rw [if_pos hc] at t5; exact WF.of_noCtl t5
     · rw [if_neg hc] at t5; exact t5.1
-  have inv : RInvXB tree [[]] { st := { html := html } } := by
-    refine ⟨by intro i it hi; simp at hi, ht, hcl, ?_⟩
+  have inv : RInvXB wl tree [[]] { st := { html := html } } := by
+    refine ⟨by intro i it hi; simp at hi, qst_nil wl, htq, ht, hcl, ?_⟩
     intro m _
     exact ⟨[], by simp, List.nil_prefix⟩
   exact runLoopX_specB hhi _ _ _ _ _ _ _ inv h
